@@ -28,6 +28,8 @@ void splinetable<Alloc>::fit(const ::ndsparse& data,
 		                       +std::to_string(weights.size())
 		                       +") does not equal number of data points ("
 		                       +std::to_string(data.rows)+")");
+	if(data.ndim==0)
+		throw std::logic_error("Input data must have at least one dimension");
 	if(data.rows==0)
 		throw std::logic_error("No data points to fit");
 	for(uint32_t i=0; i<data.ndim; i++){
